@@ -49,7 +49,9 @@ class Picc(object):
                           + data)
 
     def _wtx(self):
-        return self._send(bytes([0xF2, self.wtxm & 0x3F]))
+        # b8-b7 of the INF byte are the card's power level indication (any
+        # value is legal), b6-b1 the WTXM; wtxm values >= 64 carry both
+        return self._send(bytes([0xF2, self.wtxm & 0xFF]))
 
     def process(self, block):
         """returns the response block or None (PICC stays mute)"""
